@@ -115,27 +115,35 @@ def run_bounded(chk):
             c = (float(cx), float(cy))
             size = max(math.dist(c, p) for p in P)
             angles = np.array(angle_set(P, c, chk.bounded_tier))
-            v3 = [[x, y, 0.0] for x, y in P]
-            for r in (None, 0.0, 1e-3 * size, 0.1 * size, size, 10 * size):
-                n_cases += 1
-                try:
-                    shape = cox.shapes.ConvexPolygon(v3) if r is None else cox.shapes.ConvexSpheropolygon(v3, r)
-                    got = np.asarray(shape.distance_to_surface(angles.copy()), dtype=float)
-                except Exception as e:  # noqa: BLE001
-                    fails.append((f"{name}/rot={rot}/r={r}", {"exception": f"{type(e).__name__}: {e}"}))
-                    continue
-                n_eval += len(angles)
-                worst = None
-                for th, g in zip(angles, got):
-                    want = ray_polygon(c, th, P) if r is None else ray_spheropolygon(c, th, P, r)
-                    # skip directions that hit a vertex / arc junction within rounding (tiny margin of the boundary is immaterial)
-                    if not (abs(g - want) <= 1e-6 * max(size, want)):
-                        worst = (float(th), float(g), float(want))
-                        break
-                if worst:
-                    fails.append((f"{'ConvexPolygon' if r is None else 'ConvexSpheropolygon'}:{name}/rot={rot}/r={r if r is None else round(r, 6)}",
-                                  {"vertices": v3, "radius": r, "angle": worst[0], "distance_to_surface": worst[1],
-                                   "exact_distance_from_centroid": worst[2]}))
+            for order in ("ccw", "cw", "shuffled"):
+              # the vertex order is the caller's business: clockwise input gives a polygon with normal -z, which is the same point set
+              import random as _random
+              idx = list(range(len(P)))
+              if order == "cw":
+                  idx = idx[::-1]
+              elif order == "shuffled":
+                  _random.Random(len(P) + int(100 * rot)).shuffle(idx)
+              v3 = [[P[i][0], P[i][1], 0.0] for i in idx]
+              for r in ((None, 0.0, 1e-3 * size, 0.1 * size, size, 10 * size) if order == "ccw" else (None, 0.1 * size, size)):
+                  n_cases += 1
+                  try:
+                      shape = cox.shapes.ConvexPolygon(v3) if r is None else cox.shapes.ConvexSpheropolygon(v3, r)
+                      got = np.asarray(shape.distance_to_surface(angles.copy()), dtype=float)
+                  except Exception as e:  # noqa: BLE001
+                      fails.append((f"{name}/rot={rot}/r={r}", {"exception": f"{type(e).__name__}: {e}"}))
+                      continue
+                  n_eval += len(angles)
+                  worst = None
+                  for th, g in zip(angles, got):
+                      want = ray_polygon(c, th, P) if r is None else ray_spheropolygon(c, th, P, r)
+                      # skip directions that hit a vertex / arc junction within rounding (tiny margin of the boundary is immaterial)
+                      if not (abs(g - want) <= 1e-6 * max(size, want)):
+                          worst = (float(th), float(g), float(want))
+                          break
+                  if worst:
+                      fails.append((f"{'ConvexPolygon' if r is None else 'ConvexSpheropolygon'}:{name}/{order}/rot={rot}/r={r if r is None else round(r, 6)}",
+                                    {"vertices": v3, "radius": r, "angle": worst[0], "distance_to_surface": worst[1],
+                                     "exact_distance_from_centroid": worst[2]}))
     for cls, args in (("Circle", (1.7,)), ("Ellipse", (1.2, 2.9)), ("Ellipse", (3.0, 0.4))):
         shape = getattr(cox.shapes, cls)(*args, (2.0, -1.0, 0.0))
         angles = np.array(angle_set([], (0, 0), chk.bounded_tier))
